@@ -92,6 +92,7 @@ type vThread struct {
 	status  string // idle busy appended acked failed
 	batchID int
 	n       int
+	mc      int32 // record count the batch header DECLARES (bytes 57..61); n unless the schedule says otherwise
 	segArr  *vArrival
 	idxArr  *vArrival
 	pubArr  *vArrival
@@ -309,9 +310,18 @@ func (s *vStore) CreateTopic(ctx context.Context, spec metadata.TopicSpec) (*pro
 
 var vCastagnoli = crc32.MakeTable(crc32.Castagnoli)
 
-// vBatchBytes builds a well-formed Kafka v2 record batch with n records whose values are the
-// 4-byte batch id (n ≤ 63 keeps every varint one byte long).
-func vBatchBytes(id, n int) []byte {
+// vMc is the "#mc" suffix of a batch descriptor: present only when the declared record count is
+// not the number of offsets the batch covers (a header lie; AppendBatch does not look at the field).
+func vMc(n int64, mc int32) string {
+	if int64(mc) == n {
+		return ""
+	}
+	return fmt.Sprintf("#%d", mc)
+}
+
+// vBatchBytes builds a Kafka v2 record batch with n records whose values are the 4-byte batch id
+// (n ≤ 63 keeps every varint one byte long); the header declares mc records (well-formed: mc = n).
+func vBatchBytes(id, n int, mc int32) []byte {
 	b := make([]byte, 61, 61+11*n)
 	b[16] = 2
 	binary.BigEndian.PutUint32(b[23:27], uint32(n-1))
@@ -320,7 +330,7 @@ func vBatchBytes(id, n int) []byte {
 	binary.BigEndian.PutUint64(b[43:51], ^uint64(0))
 	binary.BigEndian.PutUint16(b[51:53], ^uint16(0))
 	binary.BigEndian.PutUint32(b[53:57], ^uint32(0))
-	binary.BigEndian.PutUint32(b[57:61], uint32(n))
+	binary.BigEndian.PutUint32(b[57:61], uint32(mc))
 	for i := 0; i < n; i++ {
 		rec := []byte{0x14, 0, 0, byte(2 * i), 0x01, 0x08, 0, 0, 0, 0, 0}
 		binary.BigEndian.PutUint32(rec[6:10], uint32(id))
@@ -344,7 +354,8 @@ func vDescribeBatches(data []byte) string {
 		base := int64(binary.BigEndian.Uint64(data[p : p+8]))
 		delta := int32(binary.BigEndian.Uint32(data[p+23 : p+27]))
 		id := binary.BigEndian.Uint32(data[p+67 : p+71])
-		parts = append(parts, fmt.Sprintf("%d@%d+%d", id, base, int64(delta)+1))
+		mc := int32(binary.BigEndian.Uint32(data[p+57 : p+61]))
+		parts = append(parts, fmt.Sprintf("%d@%d+%d%s", id, base, int64(delta)+1, vMc(int64(delta)+1, mc)))
 		p += 12 + blen
 	}
 	if p != len(data) && (len(parts) == 0 || parts[len(parts)-1] != "?") {
@@ -373,7 +384,7 @@ func vDescribeRB(bs []storage.RecordBatch) string {
 		if len(b.Bytes) >= 71 {
 			id = binary.BigEndian.Uint32(b.Bytes[67:71])
 		}
-		parts = append(parts, fmt.Sprintf("%d@%d+%d", id, b.BaseOffset, int64(b.LastOffsetDelta)+1))
+		parts = append(parts, fmt.Sprintf("%d@%d+%d%s", id, b.BaseOffset, int64(b.LastOffsetDelta)+1, vMc(int64(b.LastOffsetDelta)+1, b.MessageCount)))
 	}
 	return strings.Join(parts, ".")
 }
@@ -484,7 +495,7 @@ func (th *vThread) finish(status string, base int64) {
 	}
 	th.status = status
 	if status == "acked" {
-		vw.acked = append(vw.acked, fmt.Sprintf("%d@%d+%d", th.batchID, base, th.n))
+		vw.acked = append(vw.acked, fmt.Sprintf("%d@%d+%d%s", th.batchID, base, th.n, vMc(int64(th.n), th.mc)))
 	}
 }
 
@@ -496,7 +507,7 @@ func (th *vThread) run(ctx context.Context, c []string) {
 	}()
 	switch c[0] {
 	case "append":
-		batch, err := storage.NewRecordBatchFromBytes(vBatchBytes(th.batchID, th.n))
+		batch, err := storage.NewRecordBatchFromBytes(vBatchBytes(th.batchID, th.n, th.mc))
 		if err != nil {
 			th.finish("failed", -1)
 			return
@@ -525,7 +536,7 @@ func (th *vThread) run(ctx context.Context, c []string) {
 		rt.Topic = vTopic
 		rp := kmsg.NewProduceRequestTopicPartition()
 		rp.Partition = vPartition
-		rp.Records = vBatchBytes(th.batchID, th.n)
+		rp.Records = vBatchBytes(th.batchID, th.n, th.mc)
 		rt.Partitions = append(rt.Partitions, rp)
 		req.Topics = append(req.Topics, rt)
 		const version = 7
@@ -823,9 +834,9 @@ func vNewEpoch(maxBatches, maxMessages int) *vEpoch {
 	return ep
 }
 
-func vThreadNew(t int, auto bool, n int) *vThread {
+func vThreadNew(t int, auto bool, n int, mc int32) *vThread {
 	th := &vThread{id: t, ep: vep, cmd: make(chan []string, 1), ready: make(chan struct{}), auto: auto,
-		status: "idle", n: n, segOut: "-", idxOut: "-"}
+		status: "idle", n: n, mc: mc, segOut: "-", idxOut: "-"}
 	vw.mu.Lock()
 	th.batchID = vw.nextI
 	vw.nextI++
@@ -956,7 +967,7 @@ func verifC01Main() {
 				emit("disabled")
 				continue
 			}
-			th := vThreadNew(t, true, 1)
+			th := vThreadNew(t, true, 1, 1)
 			vw.mu.Lock()
 			th.status = "busy"
 			vw.mu.Unlock()
@@ -980,9 +991,15 @@ func verifC01Main() {
 			vKill()
 			emit("ok")
 		case "append", "produce":
+			// append|produce t n [mc]: mc = the record count the header declares (default n; any int32)
 			t, ok1 := atoi(1)
 			n, ok2 := atoi(2)
-			if !ok1 || !ok2 || len(f) != 3 {
+			mc, ok3 := int64(n), true
+			if len(f) == 4 {
+				v, err := strconv.ParseInt(f[3], 10, 32)
+				mc, ok3 = v, err == nil
+			}
+			if !ok1 || !ok2 || !ok3 || (len(f) != 3 && len(f) != 4) {
 				fmt.Fprintln(w, "bad-op")
 				w.Flush()
 				continue
@@ -991,7 +1008,7 @@ func verifC01Main() {
 				emit("disabled")
 				continue
 			}
-			th := vThreadNew(t, f[0] == "produce", n)
+			th := vThreadNew(t, f[0] == "produce", n, int32(mc))
 			vw.mu.Lock()
 			th.status = "busy"
 			vw.mu.Unlock()
